@@ -16,7 +16,7 @@ CASE_TYPE = "c10_case"
 SHARD = 60
 CASE_TIMEOUT = 30
 
-RULE = ("value cases = (operation in {deepcopy/copy, splitUniform/NonUniform/Equal/UnEqual with halos and relative "
+RULE = ("two-step cases = a second value-returning operation (or a call that must be rejected: levels/depth out of range) applied to the RESULT of a first one (flatten of flatten, merge of flatten, unflatten of flatten, split of split, swap of split ...), the first result being the operand whose state must not change; the flag also covers rank ids/shapes/formats/defaults of every operand and the identity of mutable rank-id lists. value cases = (operation in {deepcopy/copy, splitUniform/NonUniform/Equal/UnEqual with halos and relative "
         "coordinates, flattenRanks, unflattenRanks, swapRanks, fiber+k, fiber*k, fiber+fiber, fiber*fiber, "
         "tensor.updateCoords, tensor.updatePayloads, root.copy(preserve_owner=False), Tensor.fromFiber(another tensor's root "
         "or sub-fiber) on operands with stored-but-empty sub-fibers}, fiber-level on unowned fibers or tensor-level on tensors of 1-3 "
@@ -118,6 +118,10 @@ def obs_coq(o):
 def case_to_coq(c):
     if c["kind"] == "V":
         return "(CV %s %s %s %s)" % (L.nat(c["n"]), L.z(c.get("d", 0)), op_coq(c["op"]), L.lst(pt_coq(t) for t in c["ops"]))
+    if c["kind"] == "V2":
+        return "(CV2 %s %s %s %s %s)" % (L.nat(c["n"]), L.z(c.get("d", 0)), op_coq(c["op"]), op_coq(c["op2"]), pt_coq(c["ops"][0]))
+    if c["kind"] == "J":
+        return "(CJ %s %s %s %s)" % (L.nat(c["n"]), L.z(c.get("d", 0)), op_coq(c["op"]), pt_coq(c["ops"][0]))
     return "(CR %s %s %s %s)" % (L.nat(c["n"]), pt_coq(c["a"]), pt_coq(c["b"]), L.lst(obs_coq(o) for o in c["obs"]))
 
 
@@ -254,6 +258,81 @@ def gen_v0(rng, kind=None):
     raise ValueError(kind)
 
 
+def res_ranks(n, o):
+    k = o[0]
+    if k in ("copy", "swap", "updcoords", "updpay"):
+        return n
+    if k in ("split", "unflatten"):
+        return n + 1 if n else 0
+    if k == "flatten":
+        return max(n - 1, 0)
+    if k in ("arith", "copynoowner"):
+        return 0
+    if k == "fromfiber":
+        return n if o[1] is None else n - 1
+    raise ValueError(k)
+
+
+FIRST = ["copy", "split", "flatten", "flatten", "flatten", "unflatten", "swap", "updcoords", "updpay", "fromfiber",
+         "copynoowner"]
+
+
+def gen_first(rng):
+    """a tensor-level first operation (leaf default 0) whose result is the operand of the second step"""
+    for _ in range(50):
+        c = gen_v0(rng, rng.choice(FIRST))
+        if c["n"] == 0:
+            continue
+        if c["op"][0] == "fromfiber" and c["op"][1] is not None:
+            continue
+        if c["op"][0] == "swap" and not flatten_lit(c["ops"][0]):
+            continue
+        c["d"] = 0
+        return c
+    raise RuntimeError("gen_first")
+
+
+def gen_second(rng, c):
+    """an operation that is legal on the result of c's operation"""
+    n, o1 = c["n"], c["op"]
+    n1 = res_ranks(n, o1)
+    if o1[0] == "flatten":                       # tuple coordinates in the top rank
+        ks = ["copy", "fromfiber", "copynoowner", "updpay", "unflatten", "unflatten"] + (["flatten", "flatten", "merge", "merge"] if n1 >= 2 else [])
+    elif n1 == 0:                                # an unowned fiber (copy without owner)
+        ks = ["copy", "split"]
+    else:
+        ks = ["copy", "split", "fromfiber", "copynoowner", "updcoords", "updpay"] + (["flatten", "merge", "swap"] if n1 >= 2 else [])
+    k = rng.choice(ks)
+    if k == "split":
+        o2 = gen_split(rng, True)
+    elif k == "fromfiber":
+        o2 = ["fromfiber", None]
+    elif k == "merge":
+        o2 = ["flatten", "merge"]
+    elif k in ("updcoords", "updpay"):
+        o2 = [k, rng.choice([1, 2, 3])]
+    else:
+        o2 = [k]
+    return o2
+
+
+def gen_v2(rng):
+    c = gen_first(rng)
+    o2 = gen_second(rng, c)
+    # region 1 of C10Check.c10_region (a halo split shares a payload fiber between two partitions;
+    # copy(preserve_owner=False) then leaves it ownerless in the operand): reported, not generated
+    while c["op"][0] == "split" and (c["op"][3] or c["op"][4]) and o2[0] in ("copynoowner", "fromfiber"):
+        o2 = gen_second(rng, c)
+    return {"kind": "V2", "n": c["n"], "d": 0, "op": c["op"], "op2": o2, "ops": c["ops"]}
+
+
+def gen_j(rng):
+    c = gen_first(rng)
+    while c["op"][0] == "copynoowner":          # the rejected calls are tensor-level ones
+        c = gen_first(rng)
+    return {"kind": "J", "n": c["n"], "d": 0, "op": c["op"], "ops": c["ops"], "rej": rng.randrange(6)}
+
+
 EXT = ["isempty", "count", "shape", "len", "iter", "iter", "and", "sub", "str", "yaml", "format", "image"]
 
 
@@ -278,11 +357,17 @@ def streams(tier, rng):
     nr = 160 if tier == "quick" else 2500
     yield ("value-returning", [gen_v(rng) for _ in range(nv)], False)
     yield ("read-only", [gen_r(rng) for _ in range(nr)], False)
+    n2 = 150 if tier == "quick" else 2500
+    nj = 50 if tier == "quick" else 800
+    yield ("two-step", [gen_v2(rng) for _ in range(n2)], False)
+    yield ("rejected-second-call", [gen_j(rng) for _ in range(nj)], False)
     # the witnesses of S17 / S16 (fixed in the worktree the model describes)
     yield ("suspects", [
         {"kind": "V", "n": 0, "op": ["unflatten"], "ops": [[[[0, 1], 3], [[3, 0], 7]]]},
         {"kind": "R", "n": 2, "a": conv([[0, [[1, 3]]], [3, [[0, 7]]]]), "b": conv([[1, [[1, 3]]], [3, [[0, 7]]]]),
          "obs": [["union"], ["eq"], ["xor"]]},
+        {"kind": "V2", "n": 3, "d": 0, "op": ["flatten"], "op2": ["flatten"], "ops": [conv([[0, [[1, [[2, 5]]]]]])]},
+        {"kind": "J", "n": 3, "d": 0, "op": ["flatten"], "ops": [conv([[0, [[1, [[2, 5]]]]]])], "rej": 0},
     ], False)
 
 
@@ -291,12 +376,16 @@ def has_elem(t):
 
 
 def nontrivial(c):
-    if c["kind"] == "V":
+    if c["kind"] in ("V", "V2", "J"):
         return any(has_elem(t) for t in c["ops"])
     return has_elem(c["a"]) or has_elem(c["b"])
 
 
 def describe(c):
+    if c["kind"] == "V2":
+        return {"family": "two-step", "op": c["op"][0] + ">" + (c["op2"][1] if c["op2"][0] == "flatten" and len(c["op2"]) > 1 else c["op2"][0])}
+    if c["kind"] == "J":
+        return {"family": "rejected", "op": c["op"][0], "rej": c["rej"]}
     if c["kind"] == "V":
         op = c["op"][0] + ("-" + c["op"][1] if c["op"][0] in ("split", "arith") else "")
         return {"family": "value", "op": op, "level": "tensor" if c["n"] else "fiber",
@@ -331,7 +420,7 @@ def _apply_op(o, n, xs):
             return x.splitNonUniform(list(arg), **kw)
         return x.splitUnEqual(list(arg), **kw)
     if k == "flatten":
-        return x.flattenRanks()
+        return x.mergeRanks() if len(o) > 1 and o[1] == "merge" else x.flattenRanks()
     if k == "unflatten":
         return x.unflattenRanks()
     if k == "swap":
@@ -361,16 +450,22 @@ def _apply_op(o, n, xs):
     raise ValueError(k)
 
 
-def run_v(case):
+def _build_operands(case):
     import c10_util as X
     n, o = case["n"], case["op"]
-    w = X.World()
     if n:
         flat = X.lit_width(case["ops"][0]) if o[0] == "unflatten" else 1
-        xs = [X.build_tensor(t, n, flat, case.get("d", 0)) for t in case["ops"]]
-    else:
-        shape = o[6] if o[0] == "split" else None
-        xs = [X.build_fiber(t, shape) for t in case["ops"]]
+        return [X.build_tensor(t, n, flat, case.get("d", 0)) for t in case["ops"]]
+    shape = o[6] if o[0] == "split" else None
+    return [X.build_fiber(t, shape) for t in case["ops"]]
+
+
+def _trace(xs, n, o):
+    """snapshot, operation, snapshot both sides, mutate the result, snapshot, mutate the operands,
+    snapshot the result; flag = attribute values (rank ids, shapes, formats, defaults, active
+    ranges, owners, name) of the operands kept and no mutable rank-id list shared with the result"""
+    import c10_util as X
+    w = X.World()
     s0 = [X.snap(w, x) for x in xs]
     a0 = [X.attr_values(x) for x in xs]
     try:
@@ -379,6 +474,8 @@ def run_v(case):
         return [-1, 1]
     s1 = [X.snap(w, x) for x in xs]
     flag = [X.attr_values(x) for x in xs] == a0
+    ids_r = X.id_lists(r)
+    flag = flag and not any(X.id_lists(x) & ids_r for x in xs)
     sr = X.snap(w, r)
     X.mutate(r, 7)
     s2 = [X.snap(w, x) for x in xs]
@@ -388,6 +485,57 @@ def run_v(case):
         X.mutate(x, 5, seen)
     sr2 = X.snap(w, r)
     return [s0, s1, sr, s2, sr1, sr2, 1 if flag else 0]
+
+
+def run_v(case):
+    return _trace(_build_operands(case), case["n"], case["op"])
+
+
+def run_v2(case):
+    xs = _build_operands(case)
+    try:
+        r1 = _apply_op(case["op"], case["n"], xs)
+    except Exception:
+        return [-1, 3]
+    return _trace([r1], res_ranks(case["n"], case["op"]), case["op2"])
+
+
+def _rejected_call(r1, n1, k):
+    """a call on r1 that must be refused; returns True if it raised"""
+    from fibertree import Tensor
+    calls = []
+    if isinstance(r1, Tensor):
+        calls = [lambda: r1.flattenRanks(depth=0, levels=n1 + 1),
+                 lambda: r1.mergeRanks(depth=0, levels=n1 + 1),
+                 lambda: r1.flattenRanks(depth=max(n1 - 1, 0), levels=2),
+                 lambda: r1.swapRanks(depth=n1 - 1),
+                 lambda: r1.unflattenRanks(depth=n1 + 1),
+                 lambda: r1.splitUniform(2, depth=n1 + 1)]
+    else:
+        calls = [lambda: r1.flattenRanks(depth=0, levels=7),
+                 lambda: r1.swapRanks() if not r1.payloads or not hasattr(r1.payloads[0], "coords") else r1.flattenRanks(levels=7),
+                 lambda: r1.splitUniform(0)]
+    try:
+        calls[k % len(calls)]()
+    except BaseException:
+        return True
+    return False
+
+
+def run_j(case):
+    import c10_util as X
+    xs = _build_operands(case)
+    try:
+        r1 = _apply_op(case["op"], case["n"], xs)
+    except Exception:
+        return [-1, 3]
+    w = X.World()
+    s0 = X.snap(w, r1)
+    a0 = X.attr_values(r1)
+    if not _rejected_call(r1, res_ranks(case["n"], case["op"]), case["rej"]):
+        return [-1, 2]
+    s1 = X.snap(w, r1)
+    return [[s0], [s1], 1 if X.attr_values(r1) == a0 else 0]
 
 
 def _external(kind, A, B, n):
@@ -506,7 +654,8 @@ def run_r(case):
 
 
 def run_impl(case):
-    return run_v(case) if case["kind"] == "V" else run_r(case)
+    k = case["kind"]
+    return run_v(case) if k == "V" else run_v2(case) if k == "V2" else run_j(case) if k == "J" else run_r(case)
 
 
 def repro_py(case):
@@ -531,7 +680,7 @@ def shrinks(case):
                     c = copy.deepcopy(t)
                     del c[i][1][j]
                     yield c
-    if case["kind"] == "V":
+    if case["kind"] in ("V", "V2", "J"):
         for k in range(len(case["ops"])):
             for t in drops(case["ops"][k]):
                 c = copy.deepcopy(case)
